@@ -6,7 +6,7 @@ import numpy as np
 
 from .. import decoder, gens
 from ..common import Result
-from ..faults import FileSizeLimit, SourceFailed, failing_iter
+from ..faults import FileSizeLimit, SourceFailed, failing_iter, source_exception
 from ..monitors import bits_equal, describe, same_dtype
 from ..procs import run_forked
 
@@ -210,7 +210,7 @@ def run_logic(case, env, res, d):
         if case['api'] == 'append':
             a.append(chunks[0])
         elif kind == 'iterraises':
-            a.iterappend(failing_iter(chunks, pos))
+            a.iterappend(failing_iter(chunks, pos, source_exception(n + pos)))
         else:
             a.iterappend(iter(chunks))
     try:
